@@ -57,3 +57,33 @@ fn vf_get_plan() {
     }
     println!("VF-SUMMARY test=get_plan checked={} nontrivial={} bad={}", checked, checked - 3, bad);
 }
+
+#[tokio::test(flavor = "multi_thread", worker_threads = 2)]
+async fn vf_spawn_task() {
+    // C11: started as the resolved file, in the target's directory, with exactly the given arguments (verbatim), stdin closed
+    use std::os::unix::fs::PermissionsExt;
+    let td = crate::core::testing::new_testdir().unwrap();
+    let wp = td.path();
+    let script = wp.join("tools dir/show.sh");
+    std::fs::create_dir_all(script.parent().unwrap()).unwrap();
+    std::fs::create_dir_all(wp.join("pkg/t one")).unwrap();
+    std::fs::write(&script, "#!/bin/sh\npwd\necho \"$#\"\nfor a in \"$@\"; do printf '<%s>\\n' \"$a\"; done\nif read line; then echo STDIN-OPEN; else echo STDIN-EOF; fi\n").unwrap();
+    let mut perm = std::fs::metadata(&script).unwrap().permissions();
+    perm.set_mode(0o755);
+    std::fs::set_permissions(&script, perm).unwrap();
+    let (mut checked, mut bad) = (0u64, 0u64);
+    for args in [None, Some(vec![]), Some(vec!["--x".to_string()]), Some(vec!["a b".to_string(), "".to_string(), "$HOME".to_string(), "*".to_string(), "-- -v".to_string()])] {
+        checked += 1;
+        let cwd = wp.join("pkg/t one");
+        let what = format!("spawn_task(cwd {:?}, args {:?})", "pkg/t one", args);
+        let child = match spawn_task(&cwd, &script, &args) { Ok(c) => c, Err(e) => { bad += 1; println!("VF-FAIL {} :: spawn failed: {} (C11)", what, e); continue; } };
+        let out = child.wait_with_output().await.unwrap();
+        let text = String::from_utf8_lossy(&out.stdout).to_string();
+        let given = args.clone().unwrap_or_default();
+        let mut want = format!("{}\n{}\n", std::fs::canonicalize(&cwd).unwrap().display(), given.len());
+        for a in &given { want.push_str(&format!("<{}>\n", a)); }
+        want.push_str("STDIN-EOF\n");
+        if text != want { bad += 1; println!("VF-FAIL {} :: the process reported {:?}, expected {:?} (working directory, argument count, arguments verbatim, stdin closed) (C11)", what, text, want); }
+    }
+    println!("VF-SUMMARY test=spawn_task checked={} nontrivial={} bad={}", checked, checked, bad);
+}
